@@ -50,6 +50,7 @@ pub const PROPS: &[Prop] = &[
             (E_ITER_REACTOR_TURNS, "fault:reactor_turned_by_another_thread"),
             (E_ITER_CB_ERRORS, "fault:readiness_callback_returned_error"),
             (E_ITER_MIO_POLLS, "real_mio_poll_turns"),
+            (E_ITER_MIO_REREG, "fault:mio_source_rearmed_between_polls"),
         ],
         real: ITER_REAL,
         stub: ITER_STUB,
@@ -852,17 +853,23 @@ enum MioOp {
     Poll,
     Pending,
     Add(i32),
+    /// the application re-arms the source: `reregister` (false) or `deregister` + `register` (true)
+    Rereg(bool),
 }
 enum MioRes {
     Polled(bool, bool),
     Batch(Vec<libc::c_int>),
     Added(Result<(), Error>),
+    Done,
 }
 #[derive(Clone, Copy)]
 struct MioPlan {
     added: Option<i32>,
     add_at: u32,
     rejected: u32,
+    /// 0 = never; otherwise the source is re-armed after every poll turn whose number is a multiple
+    rereg_every: u32,
+    rereg_full: bool,
 }
 const MIO_SIG: usize = 0;
 
@@ -916,6 +923,15 @@ fn mio_loop(epfd: i32, plan: MioPlan, mut op: impl FnMut(MioOp) -> MioRes) {
         if st {
             stop = true;
         }
+        // re-arming the event source is an ordinary thing for a mio application to do (interest or
+        // token change, moving the source to another poller); signals delivered before it must still
+        // be obtained: as a fresh edge-triggered registration of a readable descriptor reports it,
+        // the application simply keeps polling
+        if !stop && plan.rereg_every != 0 && iter % plan.rereg_every == 0 {
+            sim::sp_user();
+            op(MioOp::Rereg(plan.rereg_full));
+            sim::count(E_ITER_MIO_REREG, 1);
+        }
     }
 }
 
@@ -946,6 +962,15 @@ macro_rules! mio_kit {
                     }
                     MioOp::Pending => MioRes::Batch(s.pending().collect()),
                     MioOp::Add(n) => MioRes::Added(s.add_signal(n)),
+                    MioOp::Rereg(full) => {
+                        if full {
+                            poll.registry().deregister(&mut s).expect("mio deregister");
+                            poll.registry().register(&mut s, Token(MIO_SIG), Interest::READABLE).expect("mio register");
+                        } else {
+                            poll.registry().reregister(&mut s, Token(MIO_SIG), Interest::READABLE).expect("mio reregister");
+                        }
+                        MioRes::Done
+                    }
                 });
                 drop(s);
                 let _g = ShimGuard::new();
@@ -985,6 +1010,15 @@ fn mio_build_v0_6(list: &[i32], stop_fd: i32, plan: MioPlan) -> Box<dyn FnOnce()
             }
             MioOp::Pending => MioRes::Batch(s.pending().collect()),
             MioOp::Add(n) => MioRes::Added(s.add_signal(n)),
+            MioOp::Rereg(full) => {
+                if full {
+                    poll.deregister(&s).expect("mio deregister");
+                    poll.register(&s, Token(MIO_SIG), Ready::readable(), PollOpt::edge()).expect("mio register");
+                } else {
+                    poll.reregister(&s, Token(MIO_SIG), Ready::readable(), PollOpt::edge()).expect("mio reregister");
+                }
+                MioRes::Done
+            }
         });
         drop(s);
         let _g = ShimGuard::new();
@@ -1336,7 +1370,7 @@ pub fn run(spec: &RunSpec) -> ! {
     if mode == Mode::Mio {
         // ---- the real mio adapter: its own thread structure (no handle, no close())
         let ver = sim::work(4);
-        let plan = MioPlan { added, add_at: sim::work(3), rejected: if rejected_add { rejected_times } else { 0 } };
+        let plan = MioPlan { added, add_at: sim::work(3), rejected: if rejected_add { rejected_times } else { 0 }, rereg_every: [0, 0, 1, 2][sim::work(4) as usize], rereg_full: sim::work(2) == 0 };
         let (stop_rd, stop_wr) = UnixStream::pair().expect("socketpair");
         let build = [mio_build_v1_0, mio_build_v0_8, mio_build_v0_7, mio_build_v0_6][ver as usize];
         sim::note(&format!("mio adapter {}", ["v1_0", "v0_8", "v0_7", "v0_6"][ver as usize]));
